@@ -18,7 +18,7 @@ CHECKS = {
 
 CHECKS["C11"] = dict(
     category="model_checking",
-    technique="TLA+ navigation state machine (Nav.tla) model-checked by TLC; TLC-generated behaviours and deviation counterexamples replayed through the real API; recorded sessions validated by TLC against Trace_Nav.tla",
+    technique="TLA+ navigation state machine (Nav.tla) model-checked by TLC; TLC-generated behaviours and deviation counterexamples replayed through the real API; recorded sessions validated by TLC against Trace_Nav.tla; plus cross-subsystem session walks (preferences, expressions, getters, navigation, routing, rule files damaged and repaired in between) with the complete projected state after every call validated by TLC against the umbrella specification Session.tla (Trace_Session.tla; this property's clauses at property level, the step relation at refinement level)",
     text="TLC explores the navigation model (stacks, markers, retry loop, reset) exhaustively for small constants and checks the C11 invariants and action properties; the deviation configurations must be refuted and their counterexamples are replayed in the library. Simulated model behaviours, systematic move/undo sweeps and seeded random walks over the suite's expressions (3 modes, overview/auto-zoom both ways, keys, set_navigation_node, failed and successful set_mathml) are recorded with position before/after and judged event by event by TLC with exactly the clauses of C11. Histories are sampled, not enumerated, in the real library.",
     design_ref="DESIGN.md section 5 C11",
     note="Where a Move/Zoom lands is decided by navigate.yaml and is deliberately unspecified (only: within the expression). Trusted: ids in the returned MathML, TLC, the projection of results into events.",
@@ -49,7 +49,7 @@ CHECKS["C09"] = dict(
 
 CHECKS["C10"] = dict(
     category="model_checking",
-    technique="TLA+ model of the lazily loaded, partly shared rule tables (RuleCache.tla) model-checked by TLC (invariant Fresh); model histories and seeded random histories executed in 16 concurrent sessions; TLC validates that memo: (expression, preferences at set time, preferences now, getter) -> output stays a function (Trace_Memo.tla)",
+    technique="TLA+ model of the lazily loaded, partly shared rule tables (RuleCache.tla) model-checked by TLC (invariant Fresh); model histories and seeded random histories executed in 16 concurrent sessions; TLC validates that memo: (expression, preferences at set time, preferences now, getter) -> output stays a function (Trace_Memo.tla); plus cross-subsystem session walks (preferences, expressions, getters, navigation, routing, rule files damaged and repaired in between) with the complete projected state after every call validated by TLC against the umbrella specification Session.tla (Trace_Session.tla; this property's clauses at property level, the step relation at refinement level)",
     text="Design level: TLC explores all interleavings of preference switches (incl. regional variants that share rule files but not Unicode files) and getters over the five rule sets with their shared tables and checks that a getter never answers from a table that is not the one the preferences name. Implementation level: histories simulated from the model, seeded random histories over every shipped language/style/code/engine (away and back, getters in every order and multiplicity, navigation noise, 16 threads at once) and fresh reference sessions are recorded; TLC rejects any two observations with equal key and different output. Histories and schedules are sampled.",
     design_ref="DESIGN.md section 5 C10",
     note="Key completeness: the read-back of every known preference name is the complete assignment. Thread independence rests on the inventory of statics re-derived on every run (a process-wide mutable static is reported as MODEL-DRIFT). Trusted: TLC, the fingerprinting of outputs with ids renamed.",
@@ -72,7 +72,7 @@ CHECKS["C14"] = dict(
 
 CHECKS["C08"] = dict(
     category="model_checking",
-    technique="TLA+ interface state machine (Api.tla): every entry point x argument class enabled in every state; TLC-exported call sequences executed from four start states with crash detection; TLC validates every call (Trace_Api.tla: Ok/Err within the time bound) and the recovery memo (Trace_Memo.tla)",
+    technique="TLA+ interface state machine (Api.tla): every entry point x argument class enabled in every state; TLC-exported call sequences executed from four start states with crash detection; TLC validates every call (Trace_Api.tla: Ok/Err within the time bound) and the recovery memo (Trace_Memo.tla); plus cross-subsystem session walks (preferences, expressions, getters, navigation, routing, rule files damaged and repaired in between) with the complete projected state after every call validated by TLC against the umbrella specification Session.tla (Trace_Session.tla; this property's clauses at property level, the step relation at refinement level)",
     text="TLC enumerates every (entry point, argument class) call, every ordered pair and simulated 7-call sequences over 16 entry points and their argument classes (malformed/odd/huge/deep MathML, wrong-kind preference values, unknown commands, key codes x modifiers, stale/unknown ids, huge offsets and positions). Each behaviour runs in the real library from four start states; a panic, abort, stack overflow or time-out is the violation, and after each behaviour a valid expression must give exactly what a fresh session gives under the same preference read-back. Sequences longer than 2 are sampled.",
     design_ref="DESIGN.md section 5 C08",
     note="Non-termination is judged by a 15 s bound per call; stack overflow by process death (re-run one script per process). Expressions <= 400 nodes / depth <= 60 on an 8 MiB stack. The model's prediction of which calls err is refinement level only.",
@@ -80,7 +80,7 @@ CHECKS["C08"] = dict(
 
 CHECKS["C20"] = dict(
     category="model_checking",
-    technique="TLA+ model of routing as save/override/search/restore (Route.tla) model-checked by TLC, early-return deviation refuted; highlight/position/routing queries for every id and cell of suite expressions x codes x highlight styles recorded with preference and navigation read-back after every query; judged by TLC (Trace_Route.tla)",
+    technique="TLA+ model of routing as save/override/search/restore (Route.tla) model-checked by TLC, early-return deviation refuted; highlight/position/routing queries for every id and cell of suite expressions x codes x highlight styles recorded with preference and navigation read-back after every query; judged by TLC (Trace_Route.tla); plus cross-subsystem session walks (preferences, expressions, getters, navigation, routing, rule files damaged and repaired in between) with the complete projected state after every call validated by TLC against the umbrella specification Session.tla (Trace_Session.tla; this property's clauses at property level, the step relation at refinement level)",
     text="Design: PrefRestored holds on every exit of the search in the intended model and is refuted for the pinned commit's early return. Implementation: per (expression, code, style) get_braille for every id and for unknown/stale ids, get_braille_position and get_navigation_node_from_braille_position for every cell (sampled beyond 40) and past the end at several navigation positions; TLC checks success for ids/cells of the expression, bounds, id membership, equality with the unhighlighted braille for Off/unknown ids, and purity (preference, navigation position, later braille and speech). Expressions are sampled from the suite.",
     design_ref="DESIGN.md section 5 C20",
     note="'highlighted = plain + dots 7-8' is not demanded. Position bound = plain braille length + 8 cells. One known finding (non-3-byte characters in Swedish braille) is listed in known_findings.json.",
